@@ -1119,6 +1119,8 @@ def _holds_init(C, pre, f, full=False):
 
 def for_cut(C, s, it, st, fr):
     L = iter_to_abs(C, it, st, fr)
+    if not s.orelse and valid_cheap(st, L.length == 0):
+        return [Out('ok', None, st)]        # provably empty collection: the body never runs
     return cut_loop(C, 'for', s, st, fr, L)
 
 
